@@ -66,6 +66,25 @@ def step (line : String) : String :=
         let f (o : Option Int) := match o with | none => "_" | some v => toString v
         s!"s:{f a}:{f b}:{f c}") (rangeToSlice l)
     | none => "bad-op"
+  | ["np.slice", n, a, b, c] =>
+    match n.toNat?, parseOptInt a, parseOptInt b, parseOptInt c with
+    | some n, some a, some b, some c =>
+      (match sliceList n a b c with
+       | none => "E:ValueError"
+       | some l => showIntList l)
+    | _, _, _, _ => "bad-op"
+  | ["np.nonzero", m] =>
+    match parseMask m with
+    | some m => showNatList (nonzero m)
+    | none => "bad-op"
+  | ["np.normint", n, i] =>
+    match n.toNat?, i.toInt? with
+    | some n, some i => showExcept toString (normInt n i)
+    | _, _ => "bad-op"
+  | ["np.ss", side, l, v] =>
+    match parseIntList l, v.toInt? with
+    | some l, some v => toString (if side = "right" then searchsortedRight l v else searchsortedLeft l v)
+    | _, _ => "bad-op"
   | ["overlap", sizes, lo, hi] =>
     match parseNatList sizes, lo.toNat?, hi.toNat? with
     | some sz, some lo, some hi => showNatList (chunksOverlapping sz lo hi)
